@@ -91,3 +91,20 @@ Definition defaults_check : bool :=
 
 Definition regions_check : bool :=
   forallb (fun c => match region_of (c_name c) with Some _ => true | None => false end) band_configs.
+
+(* ---- band objects after AddChannel histories (proofs: AddChannelProofs.v) ---------- *)
+(* the bands that accept extra channels answer RX1 on the uplink channel / frequency, and their
+   default uplink and downlink channels carry the same frequencies index by index *)
+Definition identity_kind (k : band_kind) : bool :=
+  match k with KUS915 | KAU915 | KCN470 => false | _ => true end.
+Definition identity_region (r : region) : bool :=
+  match r with RUS915 | RAU915 | RCN470 => false | _ => true end.
+
+Definition extra_aligned_cfg (c : band_cfg) : bool :=
+  if t_extra (c_tab c) then
+    identity_kind (c_kind c)
+    && match region_of (c_name c) with Some reg => identity_region reg | None => false end
+    && list_eqb Z.eqb (map ch_freq (t_up (c_tab c))) (map ch_freq (t_down (c_tab c)))
+  else true.
+
+Definition extra_aligned_check : bool := forallb extra_aligned_cfg band_configs.
